@@ -37,6 +37,7 @@ from lv.harness.envs import make_env
 from lv.harness.envs import run_coro
 
 from liquid2.exceptions import LiquidError
+from liquid2.undefined import DebugUndefined
 
 # --------------------------------------------------------------------------- alphabets
 
@@ -641,6 +642,13 @@ def chain_case(draw: Any) -> dict[str, Any]:
                 "data": data, "owners": owners, "ctl": "block", "mode": "async" if r.p(0.35) else "sync"}
     segs = []
     templates: dict[str, str] = {}
+    undefined = "debug" if r.p(0.12) else "default"
+    if undefined == "debug":
+        # DebugUndefined prints the path that was looked up - a path that may hold data
+        p1 = g.spath()
+        segs.append(["debug-undef", r.pick([f"{{{{ d[{p1}] }}}}", f"{{{{ [{p1}] }}}}", f"{{{{ l[{p1}] }}}}",
+                                            f"{{{{ d[{p1}].q | default: d[{p1}] }}}}", f"{{% cycle d[{p1}], d[{p1}] %}}",
+                                            f"{{% for i in (1..2) %}}{{{{ hs[0][{p1}] }}}}{{% endfor %}}"])])
     for _ in range(r.pick([1, 1, 1, 2, 3])):
         k, src, tpl = g.segment()
         if tpl and templates:
@@ -648,7 +656,7 @@ def chain_case(draw: Any) -> dict[str, Any]:
         templates.update(tpl)
         segs.append([k, src])
     return {"kind": "chain", "shopify": shopify, "segments": segs, "templates": templates, "data": data,
-            "owners": owners, "ctl": "tail", "mode": "async" if r.p(0.35) else "sync"}
+            "owners": owners, "ctl": "tail", "mode": "async" if r.p(0.35) else "sync", "undefined": undefined}
 
 
 # --------------------------------------------------------------------------- shared grammar generator over tainted data
@@ -973,7 +981,8 @@ class C04(Prop):
 
     def _render(self, main: str, templates: dict[str, str], data: dict[str, Any], shopify: bool,
                 log: list[list[Any]] | None = None, mode: str = "sync") -> tuple[str, Any]:
-        env = make_env(templates, shopify=shopify, auto_escape=True)
+        env = make_env(templates, shopify=shopify, auto_escape=True,
+                       undefined=DebugUndefined if getattr(self, "_undefined", None) == "debug" else None)
         if log is not None:
             for name in list(env.filters):
                 env.filters[name] = _Logged(name, env.filters[name], log)
@@ -994,6 +1003,7 @@ class C04(Prop):
         data: dict[str, Any] = case["data"]
         shopify: bool = case["shopify"]
         main, templates = self._sources(case, control=False)
+        self._undefined = case.get("undefined")
         mode: str = case.get("mode", "sync")
         res.labels.append("kind:" + case["kind"])
         res.labels.append("mode:" + mode)
